@@ -390,6 +390,14 @@ func check(c Case) hx.Verdict {
 	if v := judge("route 3 (JSON, then look up)", sub, o3b, explodeDev, explodeDev); v != nil {
 		return *v
 	}
+	// route 5: the in-expression encoders resolve aliases and merge keys like the -o formats: `q | to_json | from_json`,
+	// `q | to_yaml | from_yaml | ...` stays as YAML (aliases kept), so only the formats without aliases are routes
+	for _, pair := range []string{"to_json | from_json", "@json | from_json", "to_json(0) | @jsond"} {
+		g5, o5 := jsonOne(q+" | "+pair, c.Text)
+		if v := judge("route 5 ("+pair+")", g5, o5, explodeDev, explodeDev); v != nil {
+			return *v
+		}
+	}
 	// route 4: a wildcard read of a map gives the values the map has under the merge-key rules (as a multiset)
 	if want.K == model.Map && len(want.Keys) > 0 { // (a wildcard that matches nothing creates the key "*": C01's open finding)
 		wq := "[" + q + ` | .["*"]]`
